@@ -69,7 +69,8 @@ def run(ctx):
         ctx.violations.append({'sig': sig, 'what': what, 'input': inp, 'observed': str(obs)[:300], 'expected': str(exp)[:300],
                                'oracle': 'exact centred periodic convolution / explicit BCCB matrix of the centred kernel'})
     rng = ctx.rng
-    sizes = [(1, 1), (2, 3), (3, 3), (4, 5), (5, 6)] if ctx.quick() else [(h, w) for h in range(1, 8) for w in range(1, 9) if h * w <= 42]
+    # 13 and 17 have no small prime factor (an FFT 'fast length' would differ from the image size there)
+    sizes = [(1, 1), (2, 3), (3, 3), (4, 5), (5, 6), (13, 2), (2, 17)] if ctx.quick() else [(h, w) for h in range(1, 8) for w in range(1, 9) if h * w <= 42] + [(13, 2), (2, 17), (13, 3), (3, 19)]
     pterms = []; dterms = []; cterms = []
     for (H, W) in sizes:
         ks = [(kh, kw) for kh in range(1, H + 1) for kw in range(1, W + 1)]
